@@ -33,6 +33,7 @@ type refFunc struct {
 	Recv   string   `json:"recv"` // receiver type name, "" for functions
 	Name   string   `json:"name"`
 	Sig    string   `json:"sig"`
+	Flat   string   `json:"flat"` // receiver type (if any) followed by the parameter types, then the results
 	Tokens []string `json:"tokens"`
 }
 
@@ -173,6 +174,20 @@ func sigString(f *ssa.Function) string {
 	return "func(" + strings.Join(ps, ",") + v + ")(" + strings.Join(rs, ",") + ")"
 }
 
+// flatSigString: like sigString with the receiver as first parameter (a function and a method that do the
+// same job have the same flat signature).
+func flatSigString(f *ssa.Function) string {
+	s := sigString(f)
+	if r := f.Signature.Recv(); r != nil {
+		rt := types.TypeString(r.Type(), func(p *types.Package) string { return p.Path() })
+		if strings.HasPrefix(s, "func()") {
+			return "func(" + rt + ")" + s[len("func()"):]
+		}
+		return "func(" + rt + "," + s[len("func("):]
+	}
+	return s
+}
+
 func funcTokens(f *ssa.Function) []string {
 	set := map[string]bool{}
 	tokensInto(f, set, 0)
@@ -233,7 +248,7 @@ func buildInventory(P *Program) *refInventory {
 		} else if f.Object() != nil && f.Object().Pkg() != nil {
 			pkg = f.Object().Pkg().Path()
 		}
-		inv.Funcs[f.String()] = refFunc{Pkg: pkg, Recv: recvTypeName(f), Name: f.Name(), Sig: sigString(f), Tokens: funcTokens(f)}
+		inv.Funcs[f.String()] = refFunc{Pkg: pkg, Recv: recvTypeName(f), Name: f.Name(), Sig: sigString(f), Flat: flatSigString(f), Tokens: funcTokens(f)}
 	}
 	for _, p := range P.SSA.AllPackages() {
 		if !strings.HasPrefix(p.Pkg.Path(), modPath) {
@@ -487,12 +502,21 @@ func loadRenames(P *Program, path string) {
 			if o, ok := t.typeNew2Old[cf.Pkg+"."+cf.Recv]; ok {
 				recv = o[strings.LastIndex(o, ".")+1:]
 			}
-			if cf.Pkg != rf.Pkg || recv != rf.Recv || mapTypes(cf.Sig) != rf.Sig {
+			if cf.Pkg != rf.Pkg {
+				continue
+			}
+			sameShape := recv == rf.Recv && mapTypes(cf.Sig) == rf.Sig
+			// a function turned into a method (or back): same name, same flat signature
+			converted := cf.Name == rf.Name && rf.Flat != "" && mapTypes(cf.Flat) == rf.Flat && recv != rf.Recv
+			if !sameShape && !converted {
 				continue
 			}
 			sc := jaccard(rf.Tokens, cf.Tokens)
-			if cf.Name == rf.Name {
+			if cf.Name == rf.Name && sameShape {
 				sc = 1 // same method name on a renamed type
+			}
+			if converted && sc < 0.5 {
+				sc = 0.5
 			}
 			cs = append(cs, cand{m, n, sc})
 		}
